@@ -72,26 +72,26 @@ func init() {
 		"runtime.Caller": func(fr *frame, a []Value) Value {
 			return Tuple{fr.w.tt.BVC(64, 0), Str{S: "?"}, fr.w.bv64(0), fr.w.tt.False}
 		},
-		"runtime.Callers": func(fr *frame, a []Value) Value { return fr.w.bv64(0) },
+		"runtime.Callers":     func(fr *frame, a []Value) Value { return fr.w.bv64(0) },
 		"runtime/debug.Stack": func(fr *frame, a []Value) Value { return Slice{} },
-		"os.Getenv":            func(fr *frame, a []Value) Value { return Str{} },
-		"os.LookupEnv":         func(fr *frame, a []Value) Value { return Tuple{Str{}, fr.w.tt.False} },
-		"syscall.Getenv":       func(fr *frame, a []Value) Value { return Tuple{Str{}, fr.w.tt.False} },
+		"os.Getenv":           func(fr *frame, a []Value) Value { return Str{} },
+		"os.LookupEnv":        func(fr *frame, a []Value) Value { return Tuple{Str{}, fr.w.tt.False} },
+		"syscall.Getenv":      func(fr *frame, a []Value) Value { return Tuple{Str{}, fr.w.tt.False} },
 		"internal/godebug.New": func(fr *frame, a []Value) Value {
 			return fr.w.newObject(fr.fn.Signature.Results().At(0).Type())
 		},
-		"(*internal/godebug.Setting).Value":        func(fr *frame, a []Value) Value { return Str{} },
+		"(*internal/godebug.Setting).Value":         func(fr *frame, a []Value) Value { return Str{} },
 		"(*internal/godebug.Setting).IncNonDefault": extNoop,
-		"(*internal/godebug.Setting).Name":         func(fr *frame, a []Value) Value { return Str{S: "x"} },
-		"internal/race.Acquire":    extNoop,
-		"internal/race.Release":    extNoop,
-		"internal/race.ReleaseMerge": extNoop,
-		"internal/race.Read":       extNoop,
-		"internal/race.Write":      extNoop,
-		"internal/race.ReadRange":  extNoop,
-		"internal/race.WriteRange": extNoop,
-		"internal/race.Enable":     extNoop,
-		"internal/race.Disable":    extNoop,
+		"(*internal/godebug.Setting).Name":          func(fr *frame, a []Value) Value { return Str{S: "x"} },
+		"internal/race.Acquire":                     extNoop,
+		"internal/race.Release":                     extNoop,
+		"internal/race.ReleaseMerge":                extNoop,
+		"internal/race.Read":                        extNoop,
+		"internal/race.Write":                       extNoop,
+		"internal/race.ReadRange":                   extNoop,
+		"internal/race.WriteRange":                  extNoop,
+		"internal/race.Enable":                      extNoop,
+		"internal/race.Disable":                     extNoop,
 
 		// --- errors ---
 		"errors.Is": extErrorsIs,
@@ -134,8 +134,8 @@ func init() {
 		"(*sync/atomic.Value).Store": extAtomicValueStore,
 
 		// --- time ---
-		"time.Now":        extTimeNow,
-		"time.Sleep":      func(fr *frame, a []Value) Value { fr.p.yield("Sleep"); return nil },
+		"time.Now":         extTimeNow,
+		"time.Sleep":       func(fr *frame, a []Value) Value { fr.p.yield("Sleep"); return nil },
 		"time.runtimeNano": func(fr *frame, a []Value) Value { return fr.w.bv64(0) },
 		"time.now": func(fr *frame, a []Value) Value {
 			fr.p.unsupported("time.now (use time.Now model)")
